@@ -114,6 +114,21 @@ struct Agg
     }
 };
 
+// Per-run watchdog: a run that does not finish (a loop over a corrupted list, a client that never
+// yields) must not stall the campaign.  Exit code 78 = "hang in the run that was started last".
+static void on_alarm(int)
+{
+    static const char msg[] = "HANG\n";
+    ssize_t           w     = write(1, msg, sizeof msg - 1);
+    (void)w;
+    _exit(78);
+}
+static void arm_watchdog(unsigned seconds)
+{
+    signal(SIGALRM, on_alarm);
+    alarm(seconds);
+}
+
 static uint64_t prop_salt(const std::string& world, const std::string& prop) { return fnv1a(world + "/" + prop); }
 
 // ---------------------------------------------------------------------------
@@ -157,7 +172,9 @@ static int cmd_run(int argc, char** argv)
             printf("START %llu\n", (unsigned long long)i);
             fflush(stdout);
             SeqPlan    plan = gen_seq_plan(mix3(seed, prop_salt(world, prop), i), prof);
+            arm_watchdog(30);
             SeqOutcome out  = run_seq(plan, nullptr, prop);
+            alarm(0);
             agg.add(out.st);
             if (out.other.any())
                 for (auto& p : out.other.props)
@@ -202,6 +219,7 @@ static int cmd_run(int argc, char** argv)
             printf("START %llu\n", (unsigned long long)i);
             fflush(stdout);
             js::Value   plan = conc_genplan(world, prop, seed, i, thorough);
+            arm_watchdog(60);
             ConcOutcome out  = conc_run_plan_json(plan, nullptr);
             if (world == "pairs" && !conc_is_tsan_build() && !out.v.any() && !out.must_exit)
             {
@@ -229,6 +247,7 @@ static int cmd_run(int argc, char** argv)
                     }
                 }
             }
+            alarm(0);
             agg.add(out.st);
             agg.traces.insert(out.trace_hash);
             if (out.st.nontrivial.count(prop))
@@ -376,7 +395,7 @@ static std::string classify_forked(const js::Value& plan, std::string* props_out
         {
             dup2(devnull, 2);
         }
-        alarm(20);
+        alarm(6);
         // the child reports which call it is about to make: if it dies, the last tag says where
         g_ctx_fd         = fds[1];
         g_seq_call_hook  = [](const char* tag) {
